@@ -234,7 +234,9 @@ func runAPI(c *tcase, tmpRoot string) (r result) {
 	bytesBefore := fileBytes(devPath)
 	dirBefore := snapDir(root)
 	ctx := context.Background()
-	db, err := sql.Open("sqlite3", "file:"+devPath)
+	// (a short busy timeout: a restore blocked by a read lock that an error path of the
+	// inspection left on another pooled connection gives up after 0.2 s, not 5 s)
+	db, err := sql.Open("sqlite3", "file:"+devPath+"?_busy_timeout=200")
 	if err != nil {
 		r.err = err
 		return
@@ -353,7 +355,7 @@ func runAPI(c *tcase, tmpRoot string) (r result) {
 			} else {
 				r.outcome = "err:other"
 			}
-		} else if strings.Contains(r.output, faultRestore) {
+		} else if strings.Contains(r.output, faultRestore) || lockedRe.MatchString(r.output) {
 			r.outcome = "rfail"
 		} else {
 			r.outcome = "err:other"
